@@ -446,6 +446,10 @@ def attribute(prop, verdict, rq=None):
         # the search made inside the call gave a wrong answer (judged as a Find answer first): on self-replacement and
         # substitute-and-back requests the end-to-end statement of C08 fails whichever component is at fault
         return bool(rq) and (rq.get("rp") in ("same", "subst") or bool(rq.get("chain")))
+    if prop == "C05" and verdict.startswith("blocked:find:") and verdict[len("blocked:find:"):] in findops.C01_CLAUSES:
+        # the search inside the call reported something that is not an occurrence (or reported it wrongly): what is
+        # inserted for it is not a rigid image of the patterns at an occurrence
+        return True
     if verdict.startswith("blocked"):
         return False
     p = CLAUSE_PROP.get(verdict)
@@ -460,7 +464,10 @@ TIERS = {
         gens=[dict(CellNames='{"ort", "trineg", "skew"}', PatNames='{"P2s", "P3iso", "P3het", "P4ax"}', MaxCopies=1, MaxDecoys=0,
                    MaxAtoms=9, Anchors="AnchQ", Decoys="DecoyQ", DecoyRots="RotsQ", Shifts="ShiftQ1"),
               dict(CellNames='{"ort", "trineg"}', PatNames='{"P2h", "P3lin", "P3sca"}', MaxCopies=2, MaxDecoys=0,
-                   MaxAtoms=8, Anchors="AnchB", Decoys="DecoyQ", DecoyRots="RotsQ", Shifts="ShiftQ1", PlantRots="RotsQ")],
+                   MaxAtoms=8, Anchors="AnchB", Decoys="DecoyQ", DecoyRots="RotsQ", Shifts="ShiftQ1", PlantRots="RotsQ"),
+              # mirror-image decoys of the shallow chiral pattern in big cells (coordinates far from the origin)
+              dict(CellNames='{"big", "bigtri"}', PatNames='{"P4flat"}', MaxCopies=1, MaxDecoys=1, MaxAtoms=8,
+                   Anchors="AnchB", Decoys="DecoyQ", DecoyRots="RotsQ", PlantRots="RotsQ", Shifts="ShiftQ1", Kinds='{"mirror"}')],
         requests=2),
     "thorough": dict(
         gens=[dict(CellNames='{"cub", "ort", "tri", "trineg", "skew"}', PatNames=findops.ALLP, MaxCopies=1, MaxDecoys=0,
